@@ -295,8 +295,12 @@ class KindEngine:
                     return "dY", None
                 if x == "D" and y == "D":
                     return "M", None
+                if x == "iD" and y in ("D", "Dn"):
+                    return "M", None
                 if x == "G" and y == "G":
                     return "G2", None
+                if x == "X" and y == "X":
+                    return "X2", None
                 if x == "B":
                     return y, None
             if "T" in (a, b):
@@ -312,7 +316,7 @@ class KindEngine:
             if a == "dY" and b == "D":
                 return "F", None
             if a == "M" and b == "D":
-                return "U", None
+                return "iD", None       # reciprocal of a duration: only a duration may be multiplied by it
             if "T" in (a, b):
                 return "U", ("AFF", "absolute time in a quotient")
             return "U", None
@@ -495,6 +499,9 @@ class KindEngine:
                                              "the outcome changes when the function is rescaled" % ((a, b) if a in ("G", "G2") else (b, a)))
                     elif (a == "G" and b == "G2") or (a == "G2" and b == "G"):
                         v = v or ("DIM", "function value ordered against a product of function values")
+                    elif (a == "X" and b == "X2") or (a == "X2" and b == "X"):
+                        v = v or ("DIM", "an abscissa difference is ordered against a PRODUCT of abscissa quantities (a tolerance scaled by the position of the "
+                                         "bracket): the stopping width then grows with |x|, so far from the origin the returned point is not within the requested tolerance")
                 else:
                     if (a == "T" and b == "M" and not is_inf(right)) or (b == "T" and a == "M" and not is_inf(left)):
                         v = v or ("AFF", "absolute time compared with a constant")
